@@ -183,11 +183,17 @@ type c14Body struct {
 	eofDat bool
 	atEOF  func()
 	eof    bool
+	reads  int
+	onRead func(n int) // called at the start of the n-th Read (1-based)
 }
 
 func (b *c14Body) Read(p []byte) (int, error) {
 	if len(p) == 0 {
 		return 0, nil
+	}
+	b.reads++
+	if b.onRead != nil {
+		b.onRead(b.reads)
 	}
 	if b.ci >= len(b.chunks) {
 		if !b.eof {
@@ -833,7 +839,26 @@ func c14Run(c c14Case, r *vp.Rec) error {
 				}
 			}
 			var imu sync.Mutex
-			ctx := httptrace.WithClientTrace(context.Background(), &httptrace.ClientTrace{
+			cctx, cancel := context.WithCancel(context.Background())
+			defer cancel()
+			switch q.Cancel {
+			case 1: // already cancelled when RoundTrip is called
+				cancel()
+			case 2: // while the request body is being sent
+				if b, ok := req.Body.(*c14Body); ok {
+					b.onRead = func(n int) {
+						if n == q.CancelAt {
+							cancel()
+						}
+					}
+				} else {
+					cancel()
+				}
+			case 5: // some fake milliseconds after RoundTrip was called
+				tm := time.AfterFunc(time.Duration(q.CancelAt)*time.Millisecond, cancel)
+				defer tm.Stop()
+			}
+			ctx := httptrace.WithClientTrace(cctx, &httptrace.ClientTrace{
 				Got1xxResponse: func(code int, h textproto.MIMEHeader) error {
 					imu.Lock()
 					o.infos = append(o.infos, c14Info{code, http.Header(h).Clone()})
@@ -850,6 +875,9 @@ func c14Run(c c14Case, r *vp.Rec) error {
 			o.header = res.Header.Clone()
 			o.clen = res.ContentLength
 			o.announced = c14HeaderKeys(res.Trailer)
+			if q.Cancel == 3 { // after the response header arrived
+				cancel()
+			}
 			if q.CliPause {
 				time.Sleep(2 * time.Millisecond)
 			}
@@ -862,6 +890,9 @@ func c14Run(c c14Case, r *vp.Rec) error {
 					}
 				}
 				o.bodyN += m
+				if q.Cancel == 4 && o.bodyN >= q.CancelAt { // while the response body is read
+					cancel()
+				}
 				if err != nil {
 					if err != io.EOF {
 						o.bodyErr = err
@@ -1109,6 +1140,17 @@ func c14Judge(c *c14Case, srvObs []c14SrvObs, cliObs []c14CliObs, stray []string
 		}
 		if so.calls == 1 && !so.finished {
 			return fmt.Errorf("%shandler still running after the connection was closed", pre)
+		}
+		if q.Cancel != 0 {
+			// The caller cancelled this request at a scripted point: RoundTrip and the
+			// body reads returned (else the run would have been reported as a hang) and
+			// the handler, if it ran, has finished. Nothing else is required of it; all
+			// other exchanges of the case keep their full obligations.
+			r.Classf("cancelled-at-%d", q.Cancel)
+			if co.rtErr == nil && co.bodyErr == nil {
+				r.Class("cancelled-but-completed")
+			}
+			continue
 		}
 		// outcome
 		var fail string
